@@ -5,7 +5,7 @@
   `image c N pk data = hdr c N pk ++ data ++ tail c N` is the closed file of N frames whose encoded audio is `data`
   and whose PEAK table (float / double files) is `pk`.
 -/
-import SfProofs.CafImage
+import SfProofs.CafSession
 namespace Sf.C04Caf
 open Sf Sf.Caf Sf.CafW64
 
@@ -88,5 +88,49 @@ example : (image { codec := 0x01, endian := 0, ch := 1, sr := 8000 } 1 [] [5]).l
       .ok { fmtWord := 0x180001, ch := 1, sr := 8000, frames := 1, dataoffset := 4096, datalength := 1 } := by decide +kernel
 example : parse (image { codec := 0x02, endian := 2, ch := 6, sr := 0x7FFFFFFF } 0 [] []) =
       .ok { fmtWord := 0x180002, ch := 6, sr := 0x7FFFFFFF, frames := 0, dataoffset := 4096, datalength := 0 } := by decide +kernel
+
+/-! ### the write session: stale frames, crash points -/
+
+/-- `stale_frames_ignored` for CAF: caf_open zeroes sf.frames, and whatever the caller's value was, however the frames
+    were split over write calls and interleaved with header updates (explicit or automatic), the closed file is
+    `image c N pk data` with N the frames accepted, `data` their encoded bytes in order and `pk` the last peak table —
+    an expression in which the stale value does not occur.  Together with `caf_header_length` / `caf_size_fields` this
+    gives every size field of every closed file. -/
+theorem stale_frames_ignored_caf (c : Cfg) (hwf : c.wf) (stale : Int) (ops : List Op) (hv : ∀ op ∈ ops, op.valid c) :
+    (close c (run c (openW c stale) ops)).bytes = image c (sessFrames ops) (sessPeaks c ops) (sessData ops) ∧
+    (openW c stale).bytes = (openW c 0).bytes := by
+  have i := run_inv (wf_bw_pos hwf) ops (openW_inv c stale) hv
+  refine ⟨?_, rfl⟩
+  have := close_bytes i
+  simpa [sessPeaks_eq] using this
+
+/-- C11 `snapshot_valid` for CAF: when SFC_UPDATE_HEADER_NOW returns, the store is the header of the frames written so
+    far followed by exactly their bytes — the closed file without its tailer (a reader of the copy finds the data chunk
+    running to the end of the file) -/
+theorem snapshot_valid_caf (c : Cfg) (hwf : c.wf) (stale : Int) (ops : List Op) (hv : ∀ op ∈ ops, op.valid c) :
+    (step c (run c (openW c stale) ops) .update).bytes = hdr c (sessFrames ops) (sessPeaks c ops) ++ sessData ops := by
+  have i := run_inv (wf_bw_pos hwf) ops (openW_inv c stale) hv
+  have := (writeHeader_inv i (wf_bw_pos hwf) true).2.1 rfl
+  simpa [step, sessPeaks_eq] using this
+
+/-- …and in auto mode every write call that transferred something ends in such a crash point -/
+theorem auto_write_is_snapshot_caf (c : Cfg) (hwf : c.wf) (stale : Int) (ops : List Op) (hv : ∀ op ∈ ops, op.valid c)
+    (k : Nat) (data : List Byte) (p : List Peak) (hk : k ≠ 0) (hd : data.length = k * c.bw) (hp : p.length = c.ch)
+    (hauto : (run c (openW c stale) ops).auto = true) :
+    (step c (run c (openW c stale) ops) (.write k data p)).bytes =
+      hdr c (sessFrames ops + k) (sessPeaks c (ops ++ [.write k data p])) ++ (sessData ops ++ data) := by
+  have i := run_inv (wf_bw_pos hwf) ops (openW_inv c stale) hv
+  have := (step_inv i (wf_bw_pos hwf) (.write k data p) ⟨hd, hp⟩).2 k data p rfl hk hauto
+  simpa [sessPeaks_eq, List.foldl_append] using this
+
+/-- a float session: two write calls around an update, auto mode switched on in between -/
+def exCfg : Cfg := { codec := 0x06, endian := 1, ch := 1, sr := 8000 }
+def exOps : List Op :=
+  [.write 1 [0, 0, 0, 63] [{ value := 0x3FE0000000000000, position := 0 }], .update, .auto true,
+   .write 2 [0, 0, 128, 63, 0, 0, 0, 0] [{ value := 0x3FF0000000000000, position := 1 }]]
+example : exCfg.wf ∧ (∀ op ∈ exOps, op.valid exCfg) ∧ sessFrames exOps = 3 ∧
+    (close exCfg (run exCfg (openW exCfg 99999) exOps)).bytes.length = 4096 + 12 ∧
+    parse (close exCfg (run exCfg (openW exCfg 99999) exOps)).bytes =
+      .ok { fmtWord := 0x10180006, ch := 1, sr := 8000, frames := 3, dataoffset := 4096, datalength := 12 } := by decide +kernel
 
 end Sf.C04Caf
